@@ -102,12 +102,16 @@ def snapshot(ws, skip=('patches', 'pd', 'series'), meta=False):
         else:
             st = os.lstat(d)
             snap[rel_d + '/'] = (None, stat.S_IMODE(st.st_mode)) + ((st.st_ino, st.st_mtime_ns) if meta else ())
-        for f in files:
+        for f in files + [x for x in dirs if os.path.islink(os.path.join(d, x))]:
             p = os.path.join(d, f)
             rel = os.path.relpath(p, ws)
             st = os.lstat(p)
-            with open(p, 'rb') as fh:
-                data = fh.read()
+            if stat.S_ISLNK(st.st_mode):
+                # a symbolic link is itself the entry: its text, never what it points to
+                data = b'-> ' + os.fsencode(os.readlink(p))
+            else:
+                with open(p, 'rb') as fh:
+                    data = fh.read()
             snap[rel] = (data, stat.S_IMODE(st.st_mode)) + ((st.st_ino, st.st_mtime_ns) if meta else ())
     return snap
 
